@@ -816,3 +816,30 @@ package core
 //@   loop 1 invariant ghost(nodeloads)[self] >= old(ghost(nodeloads)[self])
 //@   loop 2 invariant ghost(nodeloads)[self] >= old(ghost(nodeloads)[self])
 //@   loop 3 invariant ghost(nodeloads)[self] >= old(ghost(nodeloads)[self])
+
+// ---------------------------------------------------------------- C15 only the holder of the pipestance lock releases it
+// Ghost: pslock[ps] == 1 while this process holds ps's _lock.  Lock takes it only when it
+// succeeds; Unlock may be called only by the holder; a failed read-write instantiation
+// (e.g. PipestanceLockedError) leaves the lock of the live mrp alone.
+//@ func core.Pipestance.Lock property C15
+//@   trusted
+//@   modifies ghost(pslock)
+//@   ensures isnil(result) ==> ghost(pslock)[self] == 1
+//@   ensures !isnil(result) ==> ghost(pslock)[self] == old(ghost(pslock)[self])
+//@   ensures forall p *core.Pipestance :: p != self ==> ghost(pslock)[p] == old(ghost(pslock)[p])
+
+//@ func core.Pipestance.Unlock property C15
+//@   trusted
+//@   requires @holder ghost(pslock)[self] == 1
+//@   modifies ghost(pslock)
+//@   ensures ghost(pslock)[self] == 0
+//@   ensures forall p *core.Pipestance :: p != self ==> ghost(pslock)[p] == old(ghost(pslock)[p])
+
+//@ func core.Runtime.instantiatePipeline property C15
+//@   requires self != nil && self.Config != nil
+//@   ensures @locked isnil(result.3) && !readOnly ==> result.2 != nil && ghost(pslock)[result.2] == 1
+//@   ensures @others forall p *core.Pipestance :: p != result.2 ==> ghost(pslock)[p] == old(ghost(pslock)[p])
+//@   ensures @refused !isnil(result.3) && result.2 == nil ==> ghost(pslock) == old(ghost(pslock))
+
+//@ func core.Runtime.reattachToPipestance property C15
+//@   requires self != nil && self.Config != nil
